@@ -88,6 +88,20 @@ INFO = {
     'C08-timed-window-unique-first-falsy-value': ('keep="first", a falsy first element for a key, then the same key again', '-'),
     'C10-sliding-window-skips-empty-metadata-c10': ('n >= 2, an element with metadata followed by >= n elements without', '-'),
     'C10-flatten-last-piece-by-identity': ('a batch whose last object also occurs earlier in it', 'bounded enumeration of flatten'),
+    'C06-valuecounts-reindexed-to-current-batch': ('a batch that lacks a previously seen value (or an empty batch)', 'value_counts in the bounded enumeration (added in round 2)'),
+    'C06-groupby-falsy-column-label': ('groupby over a frame with integer column labels, selected column label 0', 'integer-labelled frame in the bounded enumeration (GroupbyAggregation is not under a deductive contract)'),
+    'C07-window-std-ignores-ddof': ('window(...).std(ddof != 1)', '-'),
+    'C07-windowed-groupby-array-grouper-history': ('a windowed groupby keyed by a stream of numpy arrays, rows expiring', 'array-valued grouper in the bounded enumeration'),
+    'C09-kafka-init-copies-params-before-default': ('no auto.offset.reset given, no committed offset, partition not empty', 'dict(d) copy supported (was checker error)'),
+    'C09-starmap-drops-metadata': ('a downstream node of from_kafka_batched that finishes asynchronously', 'starmap metadata clause tagged C09 (from_kafka_batched hands out a starmap node)'),
+    'C11-ewmean-seed-guarded-by-is-first': ('ewm().mean() whose first batch has 0 rows', '-'),
+    'C11-cumulative-trim-by-label': ('index labels that repeat between batches (per-batch RangeIndex)', 'per-batch-index variant of the cumulative ops in the bounded enumeration (symbolic: checker error on .loc[new.index])'),
+    'C12-window-accumulator-reuses-state-dict': ('with_state=True, the emitted state kept and used after later batches', '-'),
+    'C12-accumulate-commits-state-after-emit': ('a re-entrant emit from a consumer of the accumulate node', '-'),
+    'C13-rate-limit-wait-clamped-to-one-interval': ('three or more elements queued at once', '-'),
+    'C13-dask-rate-limit-inherits-delay': ('rate_limit on a DaskStream', 'the syntactic check of the Dask mixin classes is tagged with the properties of the core nodes'),
+    'C14-latest-notifies-directly': ('update() called from a thread other than the loop\'s while the forwarder is idle', '-'),
+    'C14-latest-no-recheck-after-wait': ('an arrival while the forwarder is suspended in the delivery', '-'),
 }
 
 
